@@ -803,7 +803,7 @@ func (g *Gen) addrIdx(w *World, bech string) int {
 		}
 	}
 	for _, n := range []int{1, 2, 19, 21, 32, 33, 254, 255} {
-		if AddrOf(w.Actors, -(100 + n)).String() == bech {
+		if AddrOf(w.Actors, -(100+n)).String() == bech {
 			return -(100 + n)
 		}
 	}
